@@ -157,6 +157,17 @@ REGISTRY["C09"] = {
                     "`reads`, `key` and `compute` of the machine are parameters"],
 }
 
+REGISTRY["C11"] = {
+    "engine": "engine_alias",
+    "theorems": [(A + "Alias", "Api.Alias.C11_views"), (A + "Alias", "Api.Alias.C11_views_agree"), (A + "Alias", "Api.Alias.C11_dependentRequired_partial"),
+                 (A + "Alias", "Api.Alias.C11_dependentRequired_counterexample"), (A + "Alias", "Api.Alias.C11_graphql_counterexample")],
+    "model_is_spec": True,
+    "partial": "every view but dependentRequired lists exactly the external names (for every aliaser function); dependentRequired only when the dynamic "
+               "aliaser fixes the stored aliases (finding KF23); flattened objects and argument names are seen by the engine only",
+    "assumptions": ["the model of a view is the string it feeds to its aliaser (`ObjectField.alias` or, with the defect of row 16, the field name); that each "
+                    "real view reads that string is what the engine observes on generated classes"],
+}
+
 LEVEL_NOTE = ("Trusted: Lean 4.33 kernel; axioms propext / Classical.choice / Quot.sound only (audited by #print axioms on every run, no sorry / "
               "native_decide / own axioms); the hand-written model, tied to /repo by the differential correspondence of this check (same cases to the "
               "real code and to the compiled Lean driver); tools/extract.py for the regenerated tables; CPython / typing / dataclasses. "
@@ -200,11 +211,14 @@ TEXT["C05"] = ("Kernel-checked round-trip theorem (exists j, ser T v = j and des
 TEXT["C09"] = ("Kernel-checked theorem on an abstract cache machine: over every history (any length, evictions and resets interleaved) whose mutations go "
                "through resetting paths every observation equals the cold-start computation; the resetting paths are a table regenerated from the source on "
                "every run and checked by `decide`, and cross-checked on the live package by enumerating every (mutation, observation) pair against a cold start.")
+TEXT["C11"] = ("Kernel-checked theorem: every modelled view (deserialize, serialize, properties / required of both schemas, error locations, GraphQL input and "
+               "output fields) lists exactly aliaser(class_aliaser(alias or name)) for an arbitrary aliaser function, class aliaser and field list, hence any two "
+               "views agree; tied by comparing up to eleven views of the real code with the specification on generated classes.")
 for k, v in TEXT.items():
     REGISTRY[k]["level_text"] = v
     REGISTRY[k]["level_note"] = LEVEL_NOTE
 
 # properties registered in MANIFEST.json (a property is claimed once its check is green on the unchanged tree)
-CLAIMED = ["C01", "C02", "C03", "C04", "C05", "C06", "C07", "C08", "C09", "C10", "C13", "C14", "C15", "C16", "C17", "C18"]
+CLAIMED = ["C01", "C02", "C03", "C04", "C05", "C06", "C07", "C08", "C09", "C10", "C11", "C13", "C14", "C15", "C16", "C17", "C18"]
 PENDING_REASON = "check under construction in this session (model and theorems exist, engine being registered); not yet claimed"
 NOT_CLAIMED = {f"C{i:02d}": PENDING_REASON for i in range(1, 21) if f"C{i:02d}" not in CLAIMED}
